@@ -227,7 +227,9 @@ Definition stage1 (f : sfile) : list ecls :=
 Definition dotc : N := 46%N.
 Definition qual (prefix n : name) : name := match prefix with [] => n | _ => prefix ++ dotc :: n end.
 
-Record minfo := mkMInfo { mi_mapentry : bool; mi_extr : list (Z * Z); mi_msgset : bool }.
+(* [mi_mapval]: for a map entry, type and type name of its value field (field number 2) *)
+Record minfo := mkMInfo { mi_mapentry : bool; mi_extr : list (Z * Z); mi_msgset : bool;
+                          mi_mapval : option (option dtype * option name) }.
 Record einfo := mkEInfo { ei_closed : bool; ei_values : list (name * Z) }.
 Inductive sinfo := IMsg (m : minfo) | IEnum (e : einfo) | INone.
 
@@ -243,7 +245,11 @@ Fixpoint msg_syms (syn : syntax) (parent : name) (m : dmsg) : list sym :=
   match m with
   | DMsg nm fields nested enums exts oneofs extr _ _ me ms =>
     let fq := qual parent nm in
-    mkSym fq Resolve.KMessage false (IMsg (mkMInfo me extr ms))
+    mkSym fq Resolve.KMessage false
+          (IMsg (mkMInfo me extr ms (match fields with
+                                     | [_; v] => if me then Some (df_type v, df_type_name v) else None
+                                     | _ => None
+                                     end)))
     :: map (fun f => mkSym (qual fq (df_name f)) Resolve.KField false INone) fields
     ++ map (fun o => mkSym (qual fq o) Resolve.KOneof false INone) oneofs
     ++ flat_map (msg_syms syn fq) nested
@@ -728,6 +734,24 @@ Definition validate_field_link (L : lctx) (fd : dfield) : list ecls :=
      then [EClosedEnumImplicit] else []
    | _, _ => []
    end)
+  ++ (* fd.IsMap(): a repeated field whose message type is a map entry; the enum of the value field
+        must start at zero *)
+     (match df_type_name fd with
+      | Some (_ :: tn) =>
+        match info_of L tn with
+        | IMsg mi =>
+          match mi_mapentry mi && is_label (df_label fd) DRepeated, mi_mapval mi with
+          | true, Some (Some DEnum, Some (_ :: en)) =>
+            match info_of L en with
+            | IEnum ei => match ei_values ei with (_, num) :: _ => if num =? 0 then [] else [EMapEnumFirstZero] | [] => [] end
+            | _ => []
+            end
+          | _, _ => []
+          end
+        | _ => []
+        end
+      | _ => []
+      end)
   ++ (if is_some (df_default fd) && negb (has_presence syn fd) then [EDefaultImplicit] else [])
   ++ (match df_extendee fd with
       | Some (_ :: x) =>
